@@ -82,9 +82,9 @@ def dvalOfTok : String → DVal
 def ptOfTok : String → PtTag
   | "f" => .finite | "nan" => .nan | "inf" => .posInf | _ => .negInf
 
-def chunk {α} (k : Nat) : Nat → List α → List (List α)
+def chunk18 {α} (k : Nat) : Nat → List α → List (List α)
   | 0, _ => []
-  | n + 1, l => l.take k :: chunk k n (l.drop k)
+  | n + 1, l => l.take k :: chunk18 k n (l.drop k)
 
 /-- ops
   `c18desc n <dims…>`
@@ -132,7 +132,7 @@ def handleC18 : Handler := fun _ toks =>
         | .error e => resultStr (.error e) ++ " slice"
         | .ok _ => "OK")
   | "c18points" :: rows :: cols :: rest =>
-    some (resultStr (validatePoints (chunk (nOfTok cols) (nOfTok rows) (rest.map ptOfTok))))
+    some (resultStr (validatePoints (chunk18 (nOfTok cols) (nOfTok rows) (rest.map ptOfTok))))
   | ["c18twod", n] => some (resultStr (validateTwoD (nOfTok n)))
   | ["c18iform", t] =>
     some (resultStr (validateIformModel (match t with
